@@ -172,7 +172,7 @@ func (e *Enc) instr(in ssa.Instruction, st *State) {
 		hn := st.heapGet(e, nName, arrSort(sInt))
 		hl := st.heapGet(e, lName, arrSort(lSort))
 		st.heap[nName] = e.def(nName, tStore(hn, ch, Term{app("+", tSelect(hn, ch).S, "1"), sInt}))
-		st.heap[lName] = e.def(lName, tStore(hl, ch, v))
+		st.heap[lName] = e.def(lName, tStore(hl, ch, tStore(tSelect(hl, ch), tSelect(hn, ch), v)))
 	case *ssa.Range, *ssa.Next, *ssa.TypeAssert, *ssa.MakeClosure, *ssa.MakeChan, *ssa.Go, *ssa.Defer, *ssa.Select:
 		e.otherInstr(in, st)
 	default:
@@ -634,6 +634,24 @@ func (e *Enc) ret(x *ssa.Return, st *State) {
 	_ = strings.TrimSpace
 }
 
+// ghost log of a channel: G.chan.nsent[ch] values have been sent so far, the k-th one is G.chan.log.<T>[ch][k].
+// The log is append-only: whoever havocs it keeps the entries below the old length (appendOnly).
 func chanGhost(e *Enc, et types.Type) (nName, lName, lSort string) {
-	return "G.chan.nsent", "G.chan.last." + typeKey(et), e.reg.sortOf(et)
+	return "G.chan.nsent", "G.chan.log." + typeKey(et), arrSort(e.reg.sortOf(et))
+}
+
+// appendOnly states that the channel log (n1, l1) extends (n0, l0) at channel ref (all channels if ref is nil).
+func (e *Enc) appendOnly(n0, l0, n1, l1 Term, ref *Term) {
+	if ref != nil {
+		e.assume(Term{app(">=", tSelect(n1, *ref).S, tSelect(n0, *ref).S), sBool})
+		k := e.freshName("q_k")
+		e.assume(Term{fmt.Sprintf("(forall ((%s Int)) (! (=> (and (<= 0 %s) (< %s %s)) (= (select %s %s) (select %s %s))) :pattern ((select %s %s))))",
+			k, k, k, tSelect(n0, *ref).S, tSelect(l1, *ref).S, k, tSelect(l0, *ref).S, k, tSelect(l1, *ref).S, k), sBool})
+		return
+	}
+	c := e.freshName("q_c")
+	k := e.freshName("q_k")
+	e.assume(Term{fmt.Sprintf("(forall ((%s Int)) (! (>= (select %s %s) (select %s %s)) :pattern ((select %s %s))))", c, n1.S, c, n0.S, c, n1.S, c), sBool})
+	e.assume(Term{fmt.Sprintf("(forall ((%s Int) (%s Int)) (! (=> (and (<= 0 %s) (< %s (select %s %s))) (= (select (select %s %s) %s) (select (select %s %s) %s))) :pattern ((select (select %s %s) %s))))",
+		c, k, k, k, n0.S, c, l1.S, c, k, l0.S, c, k, l1.S, c, k), sBool})
 }
